@@ -325,21 +325,8 @@ class OPENQASMVisitor(Visitor):
         cname, cidx = str(control[0]), int(control[1])
         tname, tidx = str(target[0]), int(target[1])
 
-        outer_idx = 0
-        cloc: int | None = None
-        tloc: int | None = None
-        for reg in self.qubit_regs:
-            if reg.name == cname:
-                cloc = outer_idx + cidx
-            if reg.name == tname:
-                tloc = outer_idx + tidx
-            outer_idx += reg.size
-
-        if cloc is None:
-            raise LangException(f'Qubit register not found: {cname}')
-
-        if tloc is None:
-            raise LangException(f'Qubit register not found: {tname}')
+        cloc = self.convert_indexed_qubit(cname, cidx)
+        tloc = self.convert_indexed_qubit(tname, tidx)
 
         if cloc == tloc:
             raise LangException('CX control and target qubit cannot be equal.')
@@ -354,18 +341,7 @@ class OPENQASMVisitor(Visitor):
         qubit = tree.children[1].children
         name, idx = str(qubit[0]), int(qubit[1])
 
-        outer_idx = 0
-        location: int | None = None
-        for reg in self.qubit_regs:
-            if reg.name == name:
-                location = outer_idx + idx
-                break
-            outer_idx += reg.size
-
-        if location is None:
-            raise LangException(f'Qubit register not found: {name}')
-
-        loc = CircuitLocation(location)
+        loc = CircuitLocation(self.convert_indexed_qubit(name, idx))
         self.op_list.append(self.gate_defs['U'].build_op(loc, params))
 
     def gatep(self, tree: lark.Tree) -> None:
@@ -678,8 +654,8 @@ class OPENQASMVisitor(Visitor):
             # ID | ID "[" NNINTEGER "]"
             qubit_id = qlist.children[0]
             if len(qlist.children) == 2:
-                idx = self.convert_qubit_id_to_first_index(qubit_id)
-                return [idx + int(qlist.children[1])]
+                index = int(qlist.children[1])
+                return [self.convert_indexed_qubit(qubit_id, index)]
 
             return self.convert_qubit_id_to_indices(qubit_id)
 
@@ -691,14 +667,28 @@ class OPENQASMVisitor(Visitor):
                     qubit_id = qlist.children[1]
                     return idxs + self.convert_qubit_id_to_indices(qubit_id)
 
-                idx = self.convert_qubit_id_to_first_index(qlist.children[1])
-                return idxs + [idx + int(qlist.children[2])]
+                index = int(qlist.children[2])
+                qubit_id = qlist.children[1]
+                return idxs + [self.convert_indexed_qubit(qubit_id, index)]
 
             else:
-                idx = self.convert_qubit_id_to_first_index(qlist.children[0])
-                return [idx + int(qlist.children[1])]
+                index = int(qlist.children[1])
+                return [self.convert_indexed_qubit(qlist.children[0], index)]
 
         raise LangException('Incorrect qlist type.')
+
+    def convert_indexed_qubit(self, qubit_id: str, index: int) -> int:
+        """Return the circuit index of `qubit_id[index]`, checking range."""
+        outer_idx = 0
+        for reg in self.qubit_regs:
+            if reg.name == qubit_id:
+                if index >= reg.size:
+                    raise LangException(
+                        f'Qubit index out of range: {qubit_id}[{index}].',
+                    )
+                return outer_idx + index
+            outer_idx += reg.size
+        raise LangException(f'Unable to find qubit register id: {qubit_id}.')
 
     def convert_qubit_id_to_first_index(self, qubit_id: str) -> int:
         outer_idx = 0
